@@ -1,4 +1,5 @@
 import TunnoxModel.Proofs.C16
+import TunnoxModel.Proofs.C02
 /-!
 # C16 — shutdown paths run exactly once and leave nothing running
 
@@ -192,6 +193,31 @@ theorem C16_bridge (bs br n : Nat) (hn : 1 ≤ n) (s s₂ : Schedule) :
   rw [show rInit.recv = 0 from rfl, Nat.zero_add] at l2
   simp [holdsB, bObs, a1, a2, a3, a4, f7, e1, e2, l1, l2]
 
+/-! ## Data in flight -/
+
+/-- **Every read script, every write script, every exit of the copy loop** (EOF, endpoint read or
+write error, short write, `Bridge.Close` closing the endpoints, parent-context cancellation
+noticed by the periodic check with a non-empty pending batch) **and every interleaving `s₂`** of
+cleanup's report with the periodic goroutine's final report: the bridge's byte counter equals the
+bytes the destination accepted, and the mapping's totals equal that same number — each byte is
+reported exactly once. Reuses C02's model of `CopyWithControl` (`copyFrom_spec`). -/
+theorem C16_flow (i : FlowIn) (s₂ : Schedule) (lateFlush : Bool) :
+    holdsF lateFlush (fObs i s₂) = true := by
+  obtain ⟨p, hd, _, _, hc, _, _⟩ := C02.copyFrom_spec none 0 false i.reads i.writes {}
+  have hcnt : (flowCopy i).counter = (flowCopy i).delivered.length := by
+    simp only [flowCopy, C02.copy]
+    rw [hc, hd]; simp
+  obtain ⟨g, _, _, _, hl⟩ := r_round rInit ⟨(flowCopy i).counter, 0, 2, s₂⟩ rGlobal_init rfl
+  obtain ⟨l1, l2⟩ := hl (Nat.le_of_ble_eq_true rfl)
+  have hdef : ∀ j : FlowIn, fObs j s₂ = fObsOf (flowCopy j) (flowReportOf (flowCopy j).counter s₂) := fun _ => rfl
+  simp only [show rInit.sent = 0 from rfl, show rInit.recv = 0 from rfl, Nat.zero_add] at l1 l2
+  have e1 := g.statS
+  have e2 := g.statR
+  rw [hcnt] at e1 e2 l1 l2
+  rw [l1] at e1
+  rw [l2] at e2
+  cases lateFlush <;> simp [holdsF, fObs, fObsOf, flowReport, flowReportOf, e1, e2, hcnt]
+
 /-! ## StreamProcessor.Close -/
 
 /-- **Every schedule** of any in-flight reads/writes (each any number of transport calls) and
@@ -215,6 +241,7 @@ example : ((rRounds .repaired rInit [⟨100, 7, 2, [0, 1, 0, 0]⟩]).map rObs) =
 example : ((rRounds .asFound rInit [⟨100, 7, 2, [0, 1, 0, 0]⟩]).map rObs) = [⟨200, 14, 2, 100, 7⟩] := by decide
 example : (sObs (sFinal .repaired [(false, 4)] 1 [0, 0, 0, 1, 1, 1])).op = 2 := by decide
 example : (sObs (sFinal .asFound [(false, 4)] 1 [0, 0, 0, 1, 1, 1])).op = 3 := by decide
+example : (fObs ⟨[{ data := [1, 2, 3], err := none }, { data := [4], err := none }], []⟩ [0, 1, 1]).statS = 4 := by decide
 example : (bFinal 3 [0, 1, 2, 2, 1, 0]).sh.sc = 2 ∧ (bFinal 3 [0, 1, 2, 2, 1, 0]).sh.cleanups = 1 := by decide
 
 end Tunnox.C16
